@@ -862,8 +862,10 @@ class Engine:
         return self.as_ref(k) if not isinstance(k, (VInt, VBool)) else self.as_int(k)
 
     def map_value(self, st, m, key):
-        t = st.mval(m.t, key, m.kk)
         vk = m.vk
+        if vk == 'str':
+            return VStr(st.mvals(m.t, key, m.kk))
+        t = st.mval(m.t, key, m.kk)
         if vk == 'int':
             return VInt(t)
         if vk.startswith('ref'):
